@@ -245,26 +245,29 @@ func (acc *ElementAccumulator) containsResolvedV2FileContractElement(fce types.V
 // ValidateTransactionElements validates the Merkle proofs of all elements in the
 // supplied transaction.
 func (acc *ElementAccumulator) ValidateTransactionElements(txn types.V2Transaction) (err error) {
-	check := func(typ string, l elementLeaf) {
-		if err == nil && l.LeafIndex != types.UnassignedLeafIndex {
+	// only siacoin and siafund inputs can have an ephemeral parent (one
+	// created earlier in the same block, which has no proof yet); contract
+	// parents and chain indices must always be in the accumulator
+	check := func(typ string, l elementLeaf, ephemeralOK bool) {
+		if err == nil && !(ephemeralOK && l.LeafIndex == types.UnassignedLeafIndex) {
 			if !acc.containsLeaf(l) {
 				err = errors.New(typ + " parent has invalid Merkle proof")
 			}
 		}
 	}
 	for i := range txn.SiacoinInputs {
-		check("siacoin input", siacoinLeaf(&txn.SiacoinInputs[i].Parent, false))
+		check("siacoin input", siacoinLeaf(&txn.SiacoinInputs[i].Parent, false), true)
 	}
 	for i := range txn.SiafundInputs {
-		check("siafund input", siafundLeaf(&txn.SiafundInputs[i].Parent, false))
+		check("siafund input", siafundLeaf(&txn.SiafundInputs[i].Parent, false), true)
 	}
 	for i := range txn.FileContractRevisions {
-		check("file contract revision", v2FileContractLeaf(&txn.FileContractRevisions[i].Parent, nil, false))
+		check("file contract revision", v2FileContractLeaf(&txn.FileContractRevisions[i].Parent, nil, false), false)
 	}
 	for i := range txn.FileContractResolutions {
-		check("file contract resolution", v2FileContractLeaf(&txn.FileContractResolutions[i].Parent, nil, false))
+		check("file contract resolution", v2FileContractLeaf(&txn.FileContractResolutions[i].Parent, nil, false), false)
 		if r, ok := txn.FileContractResolutions[i].Resolution.(*types.V2StorageProof); ok {
-			check("storage proof", chainIndexLeaf(&r.ProofIndex))
+			check("storage proof", chainIndexLeaf(&r.ProofIndex), false)
 		}
 	}
 	return
